@@ -94,6 +94,25 @@ CHECKS = {
          "codes and start ids: size bound, termination (safety bound and liveness), exactly-once completeness, more/next rule; deviations "
          "rejected. ~20k real chains through ServerDecoder -> execute -> encode -> ClientDecoder validated page by page by TLC.", "4 C20",
          "TLC model checking incl. liveness (MeiMC) + TLC trace validation (MeiTrace)"),
+ "C08": ("ClientTxn", "model_checking",
+         "ClientTxnMC: the retry loop over every script of up to three per-attempt outcomes (own reply, exception reply, stale frame then "
+         "own reply, foreign reply only, nothing, short, garbage, OSError, peer close), retries 0..2, both flags: a returned reply is always "
+         "the own one (OwnOnly / NoInvention); deviations rejected. Every 1-2 (quick) / 1-3 (thorough) outcome script is concretised for "
+         "every request type and run on the real TCP, RTU-over-TCP, UDP and serial RTU/ASCII/binary clients under a scripted transport and "
+         "virtual clock; TLC classifies the returned object (by the raw PDU its decoder saw) against the frames fed during the call.",
+         "4 C08", "TLC model checking (ClientTxnMC) + TLC trace validation (ClientTrace)"),
+ "C13": ("ClientTxn", "fault_enumeration",
+         "Same engine as C08: SendBound (<= 1 + retries transmissions, each the same well-formed request frame), NoRaise, termination "
+         "(liveness in ClientTxnMC, watchdog on virtual time in the harness), retry-on-empty / retry-on-invalid honoured, and a healthy "
+         "follow-up transaction after every faulty one, for all scripts x retries 0..3 x flags x six client kinds.", "4 C13",
+         "fault-script enumeration judged by TLC (ClientTrace) + ClientTxnMC incl. liveness"),
+ "C14": ("ClientTxn", "exploration",
+         "Exhaustive over the quantity domain: get_response_pdu_size() of every predicting request class (bits 1..2000, registers 1..125, "
+         "write quantities, read/write 1..125 x {1,2,121}, every diagnostic sub-function) is compared by TLC with the length of the "
+         "response DataModel!Exec prescribes and with the real executed response; per-framing overhead and exception length for PDU sizes "
+         "1..253 against Framing!Build; the read sizes real serial / RTU-over-TCP clients ask of the transport must sum to exactly the "
+         "reply frame for normal and exception replies.", "4 C14",
+         "exhaustive enumeration judged by TLC (PredictTrace, ClientTrace ReadsExactlyFrame)"),
 }
 NA_REASON = "check not built yet in this round (see DESIGN.md section 8 for the order of work); no claim is made"
 ALL = ["C%02d" % i for i in range(1, 21)]
